@@ -85,6 +85,8 @@ def gen_mix(rng):
                 extra += " args=%s" % ",".join(rng.choice(["a", "a", "b", "c"]) for _ in range(rng.choice([1, 1, 2, 3])))
             if rng.random() < 0.3:
                 extra += " atts=k:%s" % rng.choice(["a", "b"])
+            if rng.random() < 0.3:
+                extra += " rtype=%s" % rng.choice(["web", "rpc", "api", "db", "cache", "mq", "common"])   # classification only: never a verdict or a count
             ops.append("build e=%d res=%s batch=%d dir=%s%s" % (eid, r, rng.choice([1, 1, 1, 2, 3]), rng.choice(["in", "in", "out"]), extra))
             open_.append((eid, r))
         else:
